@@ -125,6 +125,19 @@ def mon_c03(h, outs):
             if r.get("status") == "ok" and op in ("destroy", "activate", "revoke", "setAttribute", "modifyAttribute", "deleteAttribute"):
                 touched.add(uid)
             if granted:
+                # indirect object: a wrapping key the requester may not use must be indistinguishable from one
+                # that does not exist ("Wrapping key does not exist."), never the permission / locate texts
+                w = it.get("wrap") if op == "get" else None
+                if w and w.get("enckey") is not None and r.get("status") != "ok":
+                    kob = objs.get(str(w["enckey"]))
+                    if kob is not None and str(w["enckey"]) not in touched and not text_grant(
+                            pol, kob["policy"], ident["user"], ident["groups"], kob["owner"], kob["otype"], 10):
+                        m = r.get("msg") or ""
+                        if str(w["enckey"]) != str(uid) and m == "Could not locate object: %s" % w["enckey"]:
+                            fails.append(("c03:denial-not-masked:wrapping-key",
+                                          "Get with wrapping key %s (exists, not granted to %s) answered reason %s %r; a "
+                                          "non-existent key is answered 'Wrapping key does not exist.'"
+                                          % (w["enckey"], ident["user"], r.get("reason"), m), i))
                 continue
             # not granted: must fail, masked, no disclosure
             if r.get("status") == "ok":
